@@ -286,6 +286,51 @@ def private_callees(model: 'Model', fi: 'FunctionInfo', cls_name: Optional[str])
     return out
 
 
+def _search_form(fn: ast.FunctionDef) -> ast.FunctionDef:
+    """A function that is nothing but a search,
+
+        for x in it:                     for x in it:
+            [assert ...]                     [assert ...]
+            if c: return x                   if c: return True      (or False ... return True)
+        [return None]                    return False
+
+    is read as the expression it computes, `next((x for x in it if c), None)` / `any(c for x in it)` /
+    `not any(c for x in it)`: a helper carved out of a loop then looks like the combinator form of the same search."""
+    body = [s for s in fn.body if not (isinstance(s, ast.Expr) and isinstance(s.value, ast.Constant))]
+    if not (1 <= len(body) <= 2 and isinstance(body[0], ast.For) and not body[0].orelse and isinstance(body[0].target, ast.Name)):
+        return fn
+    loop = body[0]
+    inner = [s for s in loop.body if not isinstance(s, ast.Assert)]
+    if len(inner) != 1 or not isinstance(inner[0], ast.If) or inner[0].orelse or len(inner[0].body) != 1 or not isinstance(inner[0].body[0], ast.Return):
+        return fn
+    found = inner[0].body[0].value
+    tail = body[1].value if len(body) == 2 and isinstance(body[1], ast.Return) else (ast.Constant(None) if len(body) == 1 else False)
+    if tail is False:
+        return fn
+    tail = tail if tail is not None else ast.Constant(None)
+    cond = inner[0].test
+    x = loop.target.id
+    if any(isinstance(n, (ast.Yield, ast.YieldFrom, ast.Await, ast.NamedExpr)) for n in ast.walk(fn)):
+        return fn
+    gen = lambda elt: ast.GeneratorExp(elt=elt, generators=[ast.comprehension(target=ast.Name(id=x, ctx=ast.Store()), iter=loop.iter, ifs=[], is_async=0)])
+    value = None
+    if isinstance(found, ast.Name) and found.id == x and isinstance(tail, ast.Constant) and tail.value is None:
+        g = ast.GeneratorExp(elt=ast.Name(id=x, ctx=ast.Load()), generators=[ast.comprehension(target=ast.Name(id=x, ctx=ast.Store()), iter=loop.iter, ifs=[cond], is_async=0)])
+        value = ast.Call(func=ast.Name(id='next', ctx=ast.Load()), args=[g, ast.Constant(None)], keywords=[])
+    elif isinstance(found, ast.Constant) and isinstance(tail, ast.Constant) and found.value is True and tail.value is False:
+        value = ast.Call(func=ast.Name(id='any', ctx=ast.Load()), args=[gen(cond)], keywords=[])
+    elif isinstance(found, ast.Constant) and isinstance(tail, ast.Constant) and found.value is False and tail.value is True:
+        value = ast.UnaryOp(op=ast.Not(), operand=ast.Call(func=ast.Name(id='any', ctx=ast.Load()), args=[gen(cond)], keywords=[]))
+    if value is None:
+        return fn
+    import copy as _copy
+    new = _copy.copy(fn)
+    ret = ast.copy_location(ast.Return(value=value), loop)
+    new.body = [s for s in fn.body if isinstance(s, ast.Expr) and isinstance(s.value, ast.Constant)] + [ret]
+    ast.fix_missing_locations(new)
+    return new
+
+
 class Model:
     def __init__(self, repo: str):
         self.repo = Path(repo)
@@ -297,6 +342,8 @@ class Model:
         self.excluded: List[str] = []
         self._load()
         self._link()
+        for f in self.all_functions():
+            f.node = _search_form(f.node)
         self.renamed: Dict[str, str] = {}   # canonical anchor -> name found in the tree
         self.canon_names: Dict[str, Set[str]] = {}   # name found in the tree -> recorded name(s)
         self._recognise_renamed_anchors()
